@@ -136,7 +136,8 @@ def stmt(self, s: ast.stmt, st: State) -> Optional[State]:
         if fi is None:
             raise Unsupported("nested def not indexed: %s" % s.name)
         self.fis[id(fi.node)] = fi
-        st.envs[-1][s.name] = mk("closure", fi.qualname, id(fi.node), len(self.frames) - 1)
+        self.frames[-1].made_closure = True
+        st.envs[-1][s.name] = mk("closure", fi.qualname, id(fi.node), len(self.frames) - 1, self.frames[-1].uid)
         return st
     if t is ast.ClassDef:
         st.envs[-1][s.name] = sym("localclass_" + s.name)
@@ -471,7 +472,25 @@ def st_raise(self, s: ast.Raise, st: State) -> Optional[State]:
         args = tuple(a)
     else:
         ct = self.ev(e, st)
+        kw = {}
     name = self.exc_names(ct, st)
+    if ct.op == "class" and not any(x.op == "star" for x in args) and "**" not in kw:
+        # the exception object is constructed first: a constructor of the repo's own exception classes that cannot take these arguments fails with
+        # TypeError, and that is what is raised (`raise Err()` with `def __init__(self, message)`)
+        c_ = self.prog.classes.get(ct.args[0])
+        init = c_.lookup("__init__") if c_ is not None else None
+        if init is not None and isinstance(init[1], FuncInfo):
+            a_ = init[1].node.args
+            pos = [x.arg for x in a_.posonlyargs + a_.args][1:]
+            required = pos[:len(pos) - len(a_.defaults)] if len(a_.defaults) <= len(pos) else []
+            missing = [nm for i, nm in enumerate(required) if i >= len(args) and nm not in kw]
+            missing += [x.arg for x, d_ in zip(a_.kwonlyargs, a_.kw_defaults) if d_ is None and x.arg not in kw]
+            too_many = len(args) > len(pos) and not a_.vararg
+            unknown = [k for k in kw if k not in pos and k not in [x.arg for x in a_.kwonlyargs]] if not a_.kwarg else []
+            if missing or too_many or unknown:
+                self.emit("raise", s, st, exc="TypeError", exc_term=mk("builtin", "TypeError"), args=(), reraise=False, implicit=True,
+                          construct="%s(%s): %s" % (c_.name, ", ".join(["..."] * len(args)), ("missing " + ", ".join(missing)) if missing else "too many arguments" if too_many else "unexpected " + ", ".join(unknown)))
+                return None
     self.emit("raise", s, st, exc=name, exc_term=ct, args=args, reraise=False, implicit=False, cause=(s.cause is not None))
     return None
 
@@ -516,8 +535,12 @@ def _desugar_match(s):
     """match SUBJECT: case P1: ... case P2: ...   as an if / elif chain, for value, singleton, or-, capture and wildcard patterns and fixed-length sequence
     patterns made of those (class, mapping and star patterns are outside the interpreted fragment)"""
     subj = s.subject
+    pre = []
     if not isinstance(subj, (ast.Name, ast.Attribute, ast.Constant, ast.Subscript, ast.Tuple)):
-        raise Unsupported("match on a computed subject at line %d" % s.lineno)
+        # a computed subject is evaluated once, before the first case
+        tmp = ast.Name(id="__match_subject_%d" % s.lineno, ctx=ast.Store())
+        pre = [ast.Assign(targets=[tmp], value=subj)]
+        subj = ast.Name(id=tmp.id, ctx=ast.Load())
 
     def test_and_binds(pat, value):
         if isinstance(pat, ast.MatchValue):
@@ -561,6 +584,8 @@ def _desugar_match(s):
             chain = ast.If(test=ast.Constant(value=True), body=body, orelse=[])
         else:
             chain = ast.If(test=test, body=body, orelse=[chain] if chain is not None else [])
+    if pre:
+        chain = ast.If(test=ast.Constant(value=True), body=pre + [chain], orelse=[])
     for n_ in ast.walk(chain):
         if not hasattr(n_, "lineno") or getattr(n_, "lineno", None) is None:
             ast.copy_location(n_, s)
@@ -846,7 +871,61 @@ def _attr_store_targets(stmts) -> List[Tuple[str, str]]:
     return out
 
 
+def _loop_level(body, kinds):
+    """statements of the given kinds that belong to this loop (not to a nested loop or function)"""
+    out = []
+    stack = list(body)
+    while stack:
+        n = stack.pop()
+        if isinstance(n, kinds):
+            out.append(n)
+        if isinstance(n, (ast.For, ast.While, ast.AsyncFor)):
+            stack.extend(n.orelse)
+            continue
+        if isinstance(n, (ast.FunctionDef, ast.AsyncFunctionDef, ast.Lambda, ast.ClassDef)):
+            continue
+        stack.extend(ast.iter_child_nodes(n))
+    return out
+
+
+def _desugar_count(self, s: ast.For, st: State):
+    """for T in itertools.count(a[, step]): [if C: break;] BODY   is   T = a; while not C / True: BODY; T += step
+    (T a plain name the body does not rebind, no `continue` of this loop, no else clause); None when the loop is of another kind"""
+    it = s.iter
+    if not (isinstance(it, ast.Call) and not it.keywords and len(it.args) <= 2 and isinstance(s.target, ast.Name) and not s.orelse):
+        return None
+    try:
+        f = self.ev(it.func, st)
+    except Unsupported:
+        return None
+    if not (f.op == "ext" and f.args[0] in ("itertools.count",)):
+        return None
+    if _loop_level(s.body, (ast.Continue,)) or s.target.id in _assigned_names(s.body):
+        return None
+    start = it.args[0] if it.args else ast.Constant(value=0)
+    step = it.args[1] if len(it.args) > 1 else ast.Constant(value=1)
+    body = list(s.body)
+    test = ast.Constant(value=True)
+    b0 = body[0] if body else None
+    if isinstance(b0, ast.If) and not b0.orelse and len(b0.body) == 1 and isinstance(b0.body[0], ast.Break) and len(body) > 1:
+        test = ast.UnaryOp(op=ast.Not(), operand=b0.test)
+        body = body[1:]
+    init = ast.Assign(targets=[ast.Name(id=s.target.id, ctx=ast.Store())], value=start)
+    incr = ast.AugAssign(target=ast.Name(id=s.target.id, ctx=ast.Store()), op=ast.Add(), value=step)
+    loop = ast.While(test=test, body=body + [incr], orelse=[])
+    for n_ in (init, loop, test, init.targets[0], incr, incr.target):
+        ast.copy_location(n_, s)
+    ast.copy_location(incr, s.body[-1])
+    ast.copy_location(incr.target, s.body[-1])
+    ast.fix_missing_locations(init)
+    ast.fix_missing_locations(loop)
+    return [init, loop]
+
+
 def st_for(self, s: ast.For, st: State) -> Optional[State]:
+    dc = _desugar_count(self, s, st)
+    if dc is not None:
+        return self.block(dc, st)
     itv = self.ev(s.iter, st)
     items = self.iter_items(itv, st)
     if items is not None and self.unrolled_total + len(items) <= self.max_unroll:
